@@ -757,7 +757,7 @@ pub fn run_tree<F: AdFrame>(flavor: Flavor, src: &mut Source, obs: &mut Observer
                             return Some(Op::new(R_OWNER_PULL, pool, r.range(0, n - 1), r.range(1, 5)));
                         }
                         if r.chance(1, 10) {
-                            return Some(Op::new(R_STATIC, r.range(0, 13), r.range(0, 5), r.range(0, 5)));
+                            return Some(Op::new(R_STATIC, r.range(0, 14 * (crate::adframe::N_SWEEP as i64 + 1) - 1), r.range(0, 5), r.range(0, 5)));
                         }
                         if g.flavor == Flavor::Eof && r.chance(1, 12) {
                             return Some(Op::new(R_LIFT, r.range(0, 24), r.range(0, 3), r.range(0, 6)));
@@ -824,7 +824,14 @@ pub fn run_tree<F: AdFrame>(flavor: Flavor, src: &mut Source, obs: &mut Observer
                 R_STATIC => {
                     g.done += 1;
                     obs.tick(op.k);
-                    static_stack_op::<F>(op, obs)?;
+                    // op.a = 14 * format + variant: format 0 is the tree's own, the others sweep every
+                    // sample type (mono, stereo) and every channel count 3..=32
+                    let fmt = op.a.rem_euclid(14 * (crate::adframe::N_SWEEP as i64 + 1)) / 14;
+                    if fmt == 0 {
+                        static_stack_op::<F>(op, obs)?;
+                    } else {
+                        crate::with_sweep_format!((fmt - 1) as usize, static_stack_op, op, obs)?;
+                    }
                 }
                 _ => break Some(op),
             }
